@@ -2,7 +2,7 @@
    The serializer (serialize / deserialize), the converter (to_dto / from_dto) and the transport's treatment of empty
    payloads (drop_empty) are universally quantified: the statements hold for every one-shot serializer, wrapper and
    converter.  Models: coq/IO/DgramEndpoint.v (DatagramProtocol + endpoints), coq/Frame/OneShot.v (derived one-shot interface). *)
-From EN Require Import Lib.Bytes Frame.Framer Frame.ReadUntil Frame.OneShot Frame.LineOneShot IO.DgramEndpoint Gen.ParamsC05 Proofs.C05_proofs.
+From EN Require Import Lib.Bytes Frame.Framer Frame.ReadUntil Frame.OneShot Frame.LineOneShot Frame.StructStrOneShot IO.DgramEndpoint Gen.ParamsC05 Proofs.C05_proofs.
 
 (* one send_packet = exactly one datagram whose payload is serialize(to_dto packet); nothing else changes.
    Side condition: the transport does not swallow empty payloads, or the payload is not empty (see the refutation below). *)
@@ -61,6 +61,30 @@ Theorem dgram_errors_isolated :
     nth i (snd (recv_n deserialize from_dto bufsize (length ds') {| inq := ds'; outq := o' |})) RNoData.
 Proof. intros. apply isolated; assumption. Qed.
 Print Assumptions dgram_errors_isolated.
+
+(* exactly one packet or exactly one parse error per datagram -- provided the serializer's deserialize only ever returns
+   a packet or raises DeserializeError (hypothesis validated by execution: the correspondence never accepts a crash) *)
+Theorem dgram_packet_or_parse_error :
+  forall (P Q : Type) (deserialize : bytes -> ores P) (from_dto : P -> option Q) (bufsize : N) (d : bytes),
+    (forall x, deserialize x <> OCrash) ->
+    (exists q, item_result deserialize from_dto bufsize (IData d) = RPacket q) \/
+    (exists e, item_result deserialize from_dto bufsize (IData d) = RParseError e).
+Proof. intros. apply packet_or_parse_error; assumption. Qed.
+Print Assumptions dgram_packet_or_parse_error.
+
+(* struct "<n>s" string field (NamedTupleStructSerializer): a value that fits and does not itself end with NUL survives
+   pack -> unpack -> from_tuple unchanged; only TRAILING NULs are ever removed (interior and leading NULs are content) *)
+Theorem struct_string_field_roundtrip :
+  forall (n : nat) (v : bytes),
+    length v <= n -> rstrip_nul v = v ->
+    struct_s_deserialize n true (struct_s_serialize n v) = OOk v.
+Proof. exact struct_s_roundtrip. Qed.
+Print Assumptions struct_string_field_roundtrip.
+
+Theorem struct_strips_trailing_nul_only :
+  forall (d : bytes), exists k, d = rstrip_nul d ++ repeat 0%N k.
+Proof. exact rstrip_nul_spec. Qed.
+Print Assumptions struct_strips_trailing_nul_only.
 
 (* boundaries preserved: a datagram that fits the size given to recv(2) reaches the protocol whole ... *)
 Theorem dgram_not_truncated :
@@ -135,6 +159,8 @@ Qed.
 Print Assumptions oneshot_of_incremental_exact.
 
 (* non-vacuity *)
+Example c05_interior_nul_kept : struct_s_deserialize 5 true [97%N; 0%N; 98%N; 0%N; 0%N] = OOk [97%N; 0%N; 98%N].
+Proof. reflexivity. Qed.
 Example c05_crlf_partial_separator_kept :      (* "ab\r" over CRLF keeps its lone CR; "ab\r\n\r\n" loses both CRLF *)
   line_deserialize [13%N; 10%N] false true [97%N; 98%N; 13%N] = OOk [97%N; 98%N; 13%N] /\
   line_deserialize [13%N; 10%N] false true [97%N; 98%N; 13%N; 10%N; 13%N; 10%N] = OOk [97%N; 98%N].
